@@ -5,6 +5,7 @@ import StoneVerif.Model.Rt.Encode
 import StoneVerif.Model.Rt.Decode
 import StoneVerif.Model.Rt.Spec
 import StoneVerif.Model.Rt.WF
+import StoneVerif.Model.Rt.SpecC13
 /-!
 Helper lemmas for C13 (caller permissions and redaction in the JSON runtime model).
 
@@ -876,5 +877,229 @@ theorem encode_union_tag_absent (E : Ext) (env : Env) (perms : List String) (red
       exact ⟨_, rfl⟩
   · rw [hv]
     exact ⟨_, rfl⟩
+
+/-! ### Part 3: redaction -/
+
+theorem encode_redact_outer (E : Ext) (env : Env) (perms : List String) (norm : Bool) (t : PTy) (v : PyVal)
+    (r : Redactor) (hr : t.outerRedactor = some r) :
+    encode E env perms true norm t v = redactValue E r v := by
+  unfold PTy.outerRedactor at hr
+  unfold encode
+  simp only [if_true, hr]
+
+theorem encode_redact_inner (E : Ext) (env : Env) (perms : List String) (norm : Bool) (t : PTy) (v w : PyVal)
+    (r : Redactor) (hn : t.flags.nullable = true) (ho : t.flags.redactOuter = none)
+    (hi : t.flags.redactInner = some r) (hv : isNone v = false) (hval : validate E env t v = .ok w) :
+    encode E env perms true norm t v = redactValue E r v := by
+  unfold encode
+  simp only [if_true, hn, ho, hv, Bool.and_false, Bool.false_eq_true, if_false, hval, Bool.and_self, hi]
+
+/-- With redaction requested, a value at a type carrying a redactor never reaches the clear-text
+branches of `encode`: the result is the redaction, `null` for None under a Nullable, or the error of
+the Nullable validation. -/
+theorem encode_redact_top (E : Ext) (env : Env) (perms : List String) (norm : Bool) (t : PTy) (v : PyVal)
+    (r : Redactor) (hr : t.topRedactor = some r) :
+    encode E env perms true norm t v = redactValue E r v ∨
+    (isNone v = true ∧ encode E env perms true norm t v = .ok .null) ∨
+    ∃ e, validate E env t v = .error e ∧ encode E env perms true norm t v = .error e := by
+  unfold PTy.topRedactor at hr
+  cases ho : t.outerRedactor with
+  | some r' =>
+    rw [ho] at hr
+    cases hr
+    exact Or.inl (encode_redact_outer E env perms norm t v _ ho)
+  | none =>
+    rw [ho] at hr
+    simp only at hr
+    by_cases hn : t.flags.nullable = true
+    · simp only [hn, if_true] at hr
+      have ho' : t.flags.redactOuter = none := by
+        simpa [PTy.outerRedactor, hn] using ho
+      by_cases hv : isNone v = true
+      · right; left
+        refine ⟨hv, ?_⟩
+        unfold encode
+        simp only [if_true, hn, ho', hv, Bool.and_self]
+      · have hv' : isNone v = false := by simpa using hv
+        cases hval : validate E env t v with
+        | ok w => exact Or.inl (encode_redact_inner E env perms norm t v w r hn ho' hr hv' hval)
+        | error e =>
+          right; right
+          refine ⟨e, rfl, ?_⟩
+          unfold encode
+          simp only [if_true, hn, ho', hv', Bool.and_false, Bool.false_eq_true, if_false, hval]
+    · simp [hn] at hr
+
+theorem redactApply_blot_none (E : Ext) (v : PyVal) : redactApply E (.blot none) v = blotMask := by
+  simp [redactApply, redactMatches, blotMask]
+
+theorem redactDict_ok_of_stringKeyed (E : Ext) (r : Redactor) (kvs : List (PyVal × PyVal))
+    (h : stringKeyed (.dict kvs) = true) : ∃ out, redactDict E r kvs = .ok out := by
+  induction kvs with
+  | nil => exact ⟨[], rfl⟩
+  | cons kv rest ih =>
+    obtain ⟨k, x⟩ := kv
+    simp only [stringKeyed, List.all_cons, Bool.and_eq_true] at h ih
+    obtain ⟨out, hout⟩ := ih h.2
+    cases k with
+    | str s => exact ⟨(s, redactApply E r x) :: out, by simp [redactDict, hout, bind, Except.bind, pure, Except.pure]⟩
+    | _ => simp at h
+
+/-- every value of a redacted dictionary is the redaction of a value of the dictionary -/
+theorem redactDict_values (E : Ext) (r : Redactor) (kvs : List (PyVal × PyVal)) (out : List (String × JVal))
+    (h : redactDict E r kvs = .ok out) :
+    out.length = kvs.length ∧ ∀ kj ∈ out, ∃ x, (PyVal.str kj.1, x) ∈ kvs ∧ kj.2 = redactApply E r x := by
+  induction kvs generalizing out with
+  | nil => simp [redactDict] at h; subst h; simp
+  | cons kv rest ih =>
+    obtain ⟨k, x⟩ := kv
+    cases k with
+    | str s =>
+      simp only [redactDict] at h
+      cases hr : redactDict E r rest with
+      | error e => simp [hr, bind, Except.bind] at h
+      | ok out' =>
+        simp [hr, bind, Except.bind, pure, Except.pure] at h
+        subst h
+        obtain ⟨hl, hv⟩ := ih out' hr
+        refine ⟨by simp [hl], ?_⟩
+        intro kj hkj
+        rcases List.mem_cons.1 hkj with rfl | hkj
+        · exact ⟨x, List.mem_cons_self, rfl⟩
+        · obtain ⟨y, hy, he⟩ := hv kj hkj
+          exact ⟨y, List.mem_cons_of_mem _ hy, he⟩
+    | _ => simp [redactDict, crash] at h
+
+theorem redactValue_ok_of_stringKeyed (E : Ext) (r : Redactor) (v : PyVal) (h : stringKeyed v = true) :
+    ∃ j, redactValue E r v = .ok j := by
+  unfold redactValue
+  split
+  · exact ⟨_, rfl⟩
+  · rename_i kvs
+    obtain ⟨out, hout⟩ := redactDict_ok_of_stringKeyed E r kvs h
+    exact ⟨.obj out, by simp [hout, Except.map]⟩
+  · exact ⟨_, rfl⟩
+
+theorem encodeList_redacted (E : Ext) (env : Env) (perms : List String) (t : PTy) (r : Redactor)
+    (hr : t.outerRedactor = some r) (xs : List PyVal) :
+    encodeList E env perms true t xs = xs.mapM (redactValue E r) := by
+  induction xs with
+  | nil => simp [encodeList, pure, Except.pure]
+  | cons x xs ih =>
+    unfold encodeList
+    rw [List.mapM_cons, encode_redact_outer E env perms true t x r hr, ih]
+
+theorem encodeDict_values_redacted (E : Ext) (env : Env) (perms : List String) (kt vt : PTy) (r : Redactor)
+    (hr : vt.outerRedactor = some r) (kvs : List (PyVal × PyVal)) (out : List (String × JVal))
+    (h : encodeDict E env perms true kt vt kvs = .ok out) :
+    out.length = kvs.length ∧ ∀ kj ∈ out, ∃ kx ∈ kvs, redactValue E r kx.2 = .ok kj.2 := by
+  induction kvs generalizing out with
+  | nil => simp [encodeDict] at h; subst h; simp
+  | cons kv rest ih =>
+    obtain ⟨k, x⟩ := kv
+    unfold encodeDict at h
+    rw [encode_redact_outer E env perms true vt x r hr] at h
+    cases hk : encode E env perms true true kt k with
+    | error e => simp [hk, bind, Except.bind] at h
+    | ok kj =>
+      cases hx : redactValue E r x with
+      | error e => simp [hk, hx, bind, Except.bind] at h
+      | ok xj =>
+        cases hrest : encodeDict E env perms true kt vt rest with
+        | error e => simp [hk, hx, hrest, bind, Except.bind] at h
+        | ok out' =>
+          simp only [hk, hx, hrest, bind, Except.bind] at h
+          obtain ⟨hl, hv⟩ := ih out' hrest
+          cases kj with
+          | str ks =>
+            simp only [pure, Except.pure, Except.ok.injEq] at h
+            subst h
+            refine ⟨by simp [hl], ?_⟩
+            intro p hp
+            rcases List.mem_cons.1 hp with rfl | hp
+            · exact ⟨(k, x), List.mem_cons_self, hx⟩
+            · obtain ⟨kx, hkx, he⟩ := hv p hp
+              exact ⟨kx, List.mem_cons_of_mem _ hkx, he⟩
+          | _ => simp [crash] at h
+
+
+
+theorem assembleStruct_entry (fields : List FieldDef) (slots : List (String × PyVal)) (enc : List (String × R JVal))
+    (kvs : List (String × JVal)) (h : assembleStruct fields slots enc = .ok kvs)
+    (k : String) (j : JVal) (hkj : (k, j) ∈ kvs) :
+    ∃ f ∈ fields, f.name = k ∧ lookupEnc k enc = some (.ok j) := by
+  induction fields generalizing kvs with
+  | nil => simp [assembleStruct] at h; subst h; cases hkj
+  | cons g rest ih =>
+    unfold assembleStruct at h
+    split at h
+    · simp [verr] at h
+    · split at h
+      · rename_i r hr
+        cases r with
+        | error e => simp [bind, Except.bind] at h
+        | ok j' =>
+          cases hm : assembleStruct rest slots enc with
+          | error e => simp [hm, bind, Except.bind] at h
+          | ok more =>
+            simp [hm, bind, Except.bind, pure, Except.pure] at h
+            subst h
+            rcases List.mem_cons.1 hkj with he | hkj'
+            · cases he
+              exact ⟨g, List.mem_cons_self, rfl, hr⟩
+            · obtain ⟨f, hf, hn, hl⟩ := ih more hm hkj'
+              exact ⟨f, List.mem_cons_of_mem _ hf, hn, hl⟩
+      · obtain ⟨f, hf, hn, hl⟩ := ih kvs h hkj
+        exact ⟨f, List.mem_cons_of_mem _ hf, hn, hl⟩
+
+theorem lookupEnc_encodeSlots_inv (E : Ext) (env : Env) (perms : List String) (redact : Bool)
+    (fields : List FieldDef) (slots : List (String × PyVal)) (k : String) (rj : R JVal)
+    (h : lookupEnc k (encodeSlots E env perms redact fields slots) = some rj) :
+    ∃ g x, fields.find? (·.name == k) = some g ∧ (k, x) ∈ slots ∧ isNone x = false ∧
+      rj = encode E env perms redact false g.ty x := by
+  induction slots with
+  | nil => simp [encodeSlots, lookupEnc] at h
+  | cons kv rest ih =>
+    obtain ⟨k', y⟩ := kv
+    have lift : (∃ g x, fields.find? (·.name == k) = some g ∧ (k, x) ∈ rest ∧ isNone x = false ∧
+        rj = encode E env perms redact false g.ty x) →
+        ∃ g x, fields.find? (·.name == k) = some g ∧ (k, x) ∈ (k', y) :: rest ∧ isNone x = false ∧
+        rj = encode E env perms redact false g.ty x := by
+      rintro ⟨g, x, h1, h2, h3, h4⟩
+      exact ⟨g, x, h1, List.mem_cons_of_mem _ h2, h3, h4⟩
+    unfold encodeSlots at h
+    split at h
+    · rename_i g hg
+      by_cases hy : isNone y = true
+      · rw [if_pos hy] at h
+        exact lift (ih h)
+      · rw [if_neg hy] at h
+        unfold lookupEnc at h
+        by_cases hk : k' = k
+        · subst hk
+          simp only [beq_self_eq_true, if_true, Option.some.injEq] at h
+          exact ⟨g, y, hg, List.mem_cons_self, by simpa using hy, h.symm⟩
+        · have hk' : (k' == k) = false := by simpa using hk
+          simp only [hk'] at h
+          exact lift (ih h)
+    · exact lift (ih h)
+
+/-- the JSON stored under a key whose field carries a redactor is the redaction of a slot value -/
+theorem redacted_field_entry (E : Ext) (env : Env) (perms : List String)
+    (fields : List FieldDef) (slots : List (String × PyVal)) (kvs : List (String × JVal))
+    (h : assembleStruct fields slots (encodeSlots E env perms true fields slots) = .ok kvs)
+    (k : String) (j : JVal) (hkj : (k, j) ∈ kvs) (r : Redactor)
+    (hr : ∀ g ∈ fields, g.name = k → g.ty.topRedactor = some r) :
+    ∃ x, (k, x) ∈ slots ∧ redactValue E r x = .ok j := by
+  obtain ⟨f, _, _, hl⟩ := assembleStruct_entry _ _ _ _ h k j hkj
+  obtain ⟨g, x, hg, hx, hnn, he⟩ := lookupEnc_encodeSlots_inv E env perms true fields slots k _ hl
+  have hgm := List.mem_of_find?_eq_some hg
+  have hgn : g.name = k := by simpa using List.find?_some hg
+  refine ⟨x, hx, ?_⟩
+  rcases encode_redact_top E env perms false g.ty x r (hr g hgm hgn) with h1 | ⟨h1, _⟩ | ⟨e, _, h1⟩
+  · rw [← h1, ← he]
+  · rw [hnn] at h1; cases h1
+  · rw [← he] at h1; cases h1
+
 
 end StoneVerif.Rt
